@@ -201,6 +201,52 @@ Definition p_alink (k : option uent) (a d b : uent) (x : Q) : res :=
       end
   end.
 
+(** ** A component resets a state declared in [a] with [full_like(template, Quantity(x, f))]
+       (core.py full_like: np.full_like on a quantity goes through pint, then
+       [UNITS.Quantity(data, xdata.units)] converts f -> a, pint.DimensionalityError when incompatible)
+       and publishes it on its output (declared in [a]) to a consumer declared in [b]. *)
+Definition mark_conv (r : res) : res :=
+  match r with
+  | RLink us _ xs u _ y => RLink us true xs u true y   (* the numbers went through pint's conversion *)
+  | r => r
+  end.
+
+Definition m_fill (c : cache) (f a b : uent) (x : Q) : res * cache :=
+  if compatible (uu f) (uu a)
+  then let '(r, c1) := m_link c (Some a) a b (convert (uu f) (uu a) x) in (mark_conv r, c1)
+  else (RErr ErrDim, c).
+
+Definition p_fill (f a b : uent) (x : Q) : res :=
+  if compatible (uu f) (uu a) then mark_conv (p_link (Some a) a b (convert (uu f) (uu a) x))
+  else RErr ErrDim.
+
+(** ** A chain  generator [s] --> (input declared in [m]) component (output info derived from
+       connector.in_infos / FromInput, i.e. from the input's OWN info: units [m]) --> consumer [d].
+       The component doubles the pulled magnitudes and pushes plain numbers (meant in [m]).
+       Two links: bare data on an [s] output to an [m] input, bare data on an [m] output to a [d] input.
+       Held by the middle output: 2*y; received by the consumer: its conversion m -> d. *)
+Definition m_chain (c : cache) (s m d : uent) (x : Q) : res * cache :=
+  let '(r1, c1) := m_link c None s m x in
+  match r1 with
+  | RLink _ _ _ _ cv1 y =>
+      let '(r2, c2) := m_link c1 None m d (2 * y) in
+      (match r2 with
+       | RLink us _ xs u cv2 z => RLink us cv1 xs u (cv1 || cv2) z
+       | r => r
+       end, c2)
+  | r => (r, c1)
+  end.
+
+Definition p_chain (s m d : uent) (x : Q) : res :=
+  match p_link None s m x with
+  | RLink _ _ _ _ cv1 y =>
+      match p_link None m d (2 * y) with
+      | RLink us _ xs u cv2 z => RLink us cv1 xs u (cv1 || cv2) z
+      | r => r
+      end
+  | r => r
+  end.
+
 (** ** Masked arrays: a mask hides cells, it does not change numbers.  (prepare wraps the payload
        with the Info's mask, core.py 73-82; the harness judges every unmasked cell with the scalar ops.) *)
 Fixpoint mask_with (m : list bool) (l : list Q) : list (option Q) :=
@@ -219,7 +265,9 @@ Inductive op :=
 | ToUnits (a b : uent) (chk : bool) (x : Q)
 | Prepare (a b : uent) (x : Q)
 | Link (k : option uent) (a b : uent) (x : Q)
-| ALink (k : option uent) (a d b : uent) (x : Q).   (* link through a unit-changing adapter *)
+| ALink (k : option uent) (a d b : uent) (x : Q)    (* link through a unit-changing adapter *)
+| Fill (f a b : uent) (x : Q)                       (* full_like with a foreign-unit fill value, published *)
+| Chain (s m d : uent) (x : Q).                     (* component computing in its input's own units *)
 
 Definition step (c : cache) (o : op) : res * cache :=
   match o with
@@ -232,6 +280,8 @@ Definition step (c : cache) (o : op) : res * cache :=
   | Prepare a b x => let '(r, c1) := m_prepare c a b x in (res_of r, c1)
   | Link k a b x => m_link c k a b x
   | ALink k a d b x => m_alink c k a d b x
+  | Fill f a b x => m_fill c f a b x
+  | Chain s m d x => m_chain c s m d x
   end.
 
 (** the answer by dimensional analysis alone: no memo, no history *)
@@ -246,6 +296,8 @@ Definition pure_res (o : op) : res :=
   | Prepare a b x => res_of (p_prepare a b x)
   | Link k a b x => p_link k a b x
   | ALink k a d b x => p_alink k a d b x
+  | Fill f a b x => p_fill f a b x
+  | Chain s m d x => p_chain s m d x
   end.
 
 Fixpoint run (c : cache) (ops : list op) : list res :=
@@ -269,6 +321,8 @@ Definition op_ents (o : op) : list uent :=
   | Link (Some k) a b _ => [k; a; b]
   | ALink None a d b _ => [a; d; b]
   | ALink (Some k) a d b _ => [k; a; d; b]
+  | Fill f a b _ => [f; a; b]
+  | Chain s m d _ => [s; m; d]
   end.
 Definition ops_ents (ops : list op) : list uent := flat_map op_ents ops.
 
@@ -403,6 +457,18 @@ Definition slacks (o : op) (m : res) : Q * Q :=
           (* the held data is labelled [a] when converted or bare, [k] otherwise *)
           let se := match k with Some k => if cs then a else k | None => a end in
           (s1, slack (uu se) (uu b) xs + s1 * factor (uu se) / factor (uu b))
+      | _ => (s1, 0)
+      end
+  | Fill f a b x =>
+      let s1 := slack (uu f) (uu a) x in
+      match m with
+      | RLink _ _ xs _ _ _ => (s1, slack (uu a) (uu b) xs + s1 * factor (uu a) / factor (uu b))
+      | _ => (s1, 0)
+      end
+  | Chain s m0 d x =>
+      let s1 := 2 * slack (uu s) (uu m0) x in
+      match m with
+      | RLink _ _ xs _ _ _ => (s1, slack (uu m0) (uu d) xs + s1 * factor (uu m0) / factor (uu d))
       | _ => (s1, 0)
       end
   | ALink k a d b x =>
